@@ -1,8 +1,44 @@
 import Flatland.JsonUtil
+import Flatland.Markup.Json
+import Flatland.C19
 open Lean Flatland.J
 namespace Flatland.Run.C19
+open Flatland.Markup Flatland.Markup.Json Flatland.C19
 
-/-- JSON case in, JSON observation out (stub until the model of C19 is written). -/
-def run (_j : Json) : Except String Json := .error "model runner for C19 not implemented yet"
+def parseOp (j : Json) : Except String Op := do
+  match (← sfld j "op") with
+  | "begin" => return .begin (← parsePairs parseCVal (← fld j "settings"))
+  | "end" => return .end_
+  | "set" => return .set (← parsePairs parseCVal (← fld j "settings"))
+  | "setitem" => return .setItem (← cfld j "key") (← parseCVal (← fld j "value"))
+  | "update" => return .update (← parsePairs parseCVal (← fld j "settings"))
+  | "tag" => do
+    let tag0 ← cfld j "tag"
+    let tag := if (← sfld j "via") == "tag" then asciiLower tag0 else tag0
+    return .tag tag (← parseBind (← fld j "bind")) (← parsePairs parseVal (← fld j "kwargs"))
+  | o => throw s!"unknown op {o}"
+
+def observedKeys : List String :=
+  ["auto_name", "auto_value", "auto_domid", "auto_for", "auto_tabindex", "auto_filter",
+   "tabindex", "domid_format", "ordered_attributes"]
+
+def ctxObs (g : Gen) : Json :=
+  Json.arr (observedKeys.map (fun k =>
+    match g.ctx.getItem k.toList with
+    | .ok v => Json.arr #[Json.str k, ofCVal v]
+    | .error e => Json.arr #[Json.str k, Json.str e.name])).toArray
+
+def run (j : Json) : Except String Json := do
+  let T := Tables.current
+  let init ← fld j "init"
+  let ops ← (← afld j "ops").mapM parseOp
+  match Gen.init T (← cfld init "markup") (← parsePairs parseCVal (← fld init "settings")) with
+  | .error e => return obj [("init_err", Json.str e.name), ("steps", Json.arr #[]), ("open", Json.null)]
+  | .ok g =>
+    let (gf, steps) := Flatland.C19.run T RenderCfg.current g ops
+    let stepJson := steps.map (fun (so : StepObs × Gen) =>
+      obj [("err", ofErr so.1.err), ("out", ofOpt ofStr so.1.out), ("ctx", ctxObs so.2)])
+    return obj [("init_err", Json.null), ("init_ctx", ctxObs g), ("steps", Json.arr stepJson.toArray),
+                ("open", ofNat (openBlocks gf))]
 
 end Flatland.Run.C19
